@@ -250,7 +250,7 @@ func (r *Report) finish() int {
 		assumptions = append(assumptions, n)
 	}
 	assumptions = append(assumptions,
-		"machine integers are treated as mathematical integers",
+		"integers are mathematical in the model; every +, -, * and narrowing integer conversion in the functions under contract carries a discharged no-overflow obligation (kind overflow); shifts, unary minus, MinInt / -1 and arithmetic inside library code are not covered",
 		"termination is not proved (partial correctness)",
 		"sequential reasoning per call: no interleavings; shared state only through declared monitors",
 		"append allocates a fresh backing array (aliasing through spare capacity is not modelled; an append into a shortened view of a slice the function does not own is reported as a frame violation)",
